@@ -29,6 +29,10 @@ RULE = ("cases drawn from one PRNG (VERIF_SEED), one fresh file each; files hold
         "DFSDsetdimscale (a scale or NULL), DFSDsetdatastrs, DFSDsetdimstrs, DFSDsetrange, DFSDadddata, DFSDclear - with no "
         "reset the sequence does not contain, steered towards set/write/remove/write and set/write/write; the raster "
         "writers likewise call DFR8setpalette / DF24setil only when the setting in effect changes; "
+        "in half of the cases a second, different file holding objects under the same tag/refs (labels, descriptions, a "
+        "dataset with scale, an 8-bit image with palette, a 24-bit image) is written and read through every single-file "
+        "reader of the same process before the case's file is read; DFR8/DF24 images are read a second time by a caller "
+        "that knows the dimensions and calls DFR8getimage / DF24getimage alone (no dimension query in between); "
         "(sds) 1-6 datasets of rank 1-4, extents 1-5, "
         "every 8/16/32-bit integer, char and float32/64 type in standard, little-endian and native flavour, optional "
         "unlimited first dimension, written by DFSDadddata | SDcreate+SDwritedata | nccreate/ncdimdef/ncvardef/ncvarput "
@@ -172,7 +176,7 @@ def gen_sds(r):
         ds.append(d)
     pre = r.choice([0, 0, 1, 2]) if w != "nc" else 0
     edits = sorted(r.sample(range(n), r.randrange(1, n + 1))) if (w == "sd" and r.random() < 0.5) else []
-    return {"kind": "sds", "w": w, "pre": pre, "edits": edits, "pad": gen_pad(r), "objs": ds}
+    return {"kind": "sds", "w": w, "pre": pre, "edits": edits, "pad": gen_pad(r) | (r.choice([0, 1]) << 15), "objs": ds}
 
 
 def gen_img(r):
@@ -213,7 +217,7 @@ def gen_img(r):
                 b["pal"] = a["pal"]
             if r.random() < 0.5 and a["nc"] == 3 and b["nc"] == 3:
                 b["il"] = a["il"]
-    return {"kind": "img", "w": w, "pre": pre, "edits": edits, "pad": (gen_pad(r) & 15) | lazy, "ril": r.choice([-1, 0, 1, 2]), "objs": ims}
+    return {"kind": "img", "w": w, "pre": pre, "edits": edits, "pad": (gen_pad(r) & 15) | lazy | (r.choice([0, 1]) << 15), "ril": r.choice([-1, 0, 1, 2]), "objs": ims}
 
 
 def gen_rawsds(r):
@@ -358,7 +362,7 @@ def gen_ann(r):
         else:
             txt = [r.randrange(256) for _ in range(ln)]
         objs.append({"ty": ty, "tag": tag, "ref": ref, "txt": txt})
-    return {"kind": "ann", "w": w, "objs": objs}
+    return {"kind": "ann", "w": w, "decoy": r.choice([0, 1, 1]), "objs": objs}
 
 
 def meta_tok(d):
@@ -415,7 +419,7 @@ def emit(cid, c):
     if k == "pal":
         return "%s pal %d %s" % (cid, len(c["objs"]), " ".join(hexs(p) for p in c["objs"]))
     if k == "ann":
-        t = ["%s ann %s %d" % (cid, c["w"], len(c["objs"]))]
+        t = ["%s ann %s %d %d" % (cid, c["w"], c.get("decoy", 0), len(c["objs"]))]
         for a in c["objs"]:
             t.append("%s %d %d %s" % (a["ty"], a["tag"], a["ref"], hexs(a["txt"])))
         return " ".join(t)
@@ -489,12 +493,13 @@ def parse_case(line):
         return cid, {"kind": "pal", "objs": [list(bytes.fromhex(nx())) for _ in range(n)]}
     if k == "ann":
         w = nx()
+        dec = int(nx())
         n = int(nx())
         objs = []
         for _ in range(n):
             ty, tag, ref, h = nx(), int(nx()), int(nx()), nx()
             objs.append({"ty": ty, "tag": tag, "ref": ref, "txt": list(bytes.fromhex(h)) if h != "-" else []})
-        return cid, {"kind": "ann", "w": w, "objs": objs}
+        return cid, {"kind": "ann", "w": w, "decoy": dec, "objs": objs}
     if k == "legacy":
         return cid, {"kind": "legacy", "path": nx()}
     if k == "dfsdseq":
@@ -569,7 +574,7 @@ def run_cases(ctx, cases, tag):
         for cid, c in cases:
             fh.write((cid + " " + rawline[cid] if cid in rawline else emit(cid, c)) + "\n")
     rc, R = vc.run_lines(exe, ph, timeout=1500, args=[wd])
-    noise = [l for l in R if not re.match(r"^\S+ (w|rec|end|crash|dfsd|sd|sdn|nc|vg|vgi|dfr8|df24|gr|grr|dfp|dfan|an|legacy|dfsdmeta|sdmeta|dfsdp|dfr8p) ", l + " ")]
+    noise = [l for l in R if not re.match(r"^\S+ (w|rec|end|crash|dfsd|sd|sdn|nc|vg|vgi|dfr8|df24|gr|grr|dfp|dfan|an|legacy|dfsdmeta|sdmeta|dfsdp|dfr8p|df24s|dfr8s) ", l + " ")]
     Rd = by_case([l for l in R if l not in noise])
     Sd = by_case(S)
     # phase 2: the record models read the element dump of every file the library wrote
@@ -588,7 +593,7 @@ def run_cases(ctx, cases, tag):
     return Rd, Sd, Md, noise
 
 
-VIEWS = ("dfsd", "sd", "sdn", "nc", "vg", "vgi", "dfr8", "df24", "gr", "grr", "dfp", "dfan", "an", "dfsdmeta", "sdmeta", "dfsdp", "dfr8p")
+VIEWS = ("dfsd", "sd", "sdn", "nc", "vg", "vgi", "dfr8", "df24", "gr", "grr", "dfp", "dfan", "an", "dfsdmeta", "sdmeta", "dfsdp", "dfr8p", "df24s", "dfr8s")
 
 
 def observed(lines):
@@ -890,7 +895,9 @@ def run(ctx):
              "files_with_more_than_ten_dimension_variables": 0, "reads_into_larger_array": {"DFSDgetdata": 0, "DFSDgetslice": 0,
              "DFSDreadslab": 0, "DFR8getimage": 0}, "larger_in_non_leading_dimension": 0,
              "writer_sessions": 0, "session_ops": {}, "sessions_scale_removed_between_datasets": 0,
-             "sessions_scale_kept_between_datasets": 0, "lazy_raster_writers": 0}
+             "sessions_scale_kept_between_datasets": 0, "lazy_raster_writers": 0,
+             "cases_with_another_file_read_in_between": 0, "reads_without_dimension_query": 0,
+             "files_with_8bit_image_before_24bit_image": 0}
     nviol = 0
     for cid, c in cases:
         R, S = Rd.get(cid, []), Sd.get(cid, [])
@@ -928,6 +935,14 @@ def run(ctx):
             stats["reads_into_larger_array"]["DFR8getimage"] += 1
         if k == "img" and (c.get("pad", 0) >> 14) & 1:
             stats["lazy_raster_writers"] += 1
+        if (k in ("sds", "img") and (c.get("pad", 0) >> 15) & 1) or (k == "ann" and c.get("decoy")) or \
+                (k == "dfsdseq" and len(c["ops"]) & 1):
+            stats["cases_with_another_file_read_in_between"] += 1
+        stats["reads_without_dimension_query"] += sum(1 for l in R if l.startswith(("df24s ", "dfr8s ")))
+        if k == "img":
+            ncs = [o["nc"] for o in c["objs"]]
+            if any(a == 1 and 3 in ncs[i + 1:] for i, a in enumerate(ncs)):
+                stats["files_with_8bit_image_before_24bit_image"] += 1
         if k == "dfsdseq":
             stats["writer_sessions"] += 1
             have, wrote, rem, kept = set(), False, False, False
